@@ -220,7 +220,16 @@ class Part(ReadBase):
                 blk = blk_choice(rng, size) if v.startswith('cb') else 'w'
                 ops.append(f'run blk={blk} src={v} cons={cons} trunc=- fault=-')
             yield Case(f'part:{name}:{cls}', ops, {'cls': cls})
-        for label, mk, size in made_archives(rng, 40 if tier == 'quick' else 300):
+        # every writable format once under a fixed set of small and odd block sizes (block borders inside headers,
+        # sparse maps, extended headers, names), then random format/filter/option combinations
+        for fmt in MAKE_FORMATS:
+            refsrc, variants = CLASSES['K']
+            cons = rng.choice(['A', 'A', 'S,A', 'A,S'])
+            ops = [f'make fmt={fmt} filt=none seed={rng.randrange(1, 10**6)} n=6', f'run blk=w src={refsrc} cons={cons} trunc=- fault=-']
+            for b in ['1', '7', '64', '511', '513', 'r%d' % rng.randrange(1, 999), 'c%d' % rng.randrange(0, 3000)]:
+                ops.append(f'run blk={b} src=cbk cons={cons} trunc=- fault=-')
+            yield Case(f'part:made:{fmt}+none:K', ops, {'cls': 'K'})
+        for label, mk, size in made_archives(rng, 30 if tier == 'quick' else 300):
             cls = rng.choice(['K', 'K', 'N', 'S'])
             refsrc, variants = CLASSES[cls]
             cons = rng.choice(['A', 'A', 'S', 'S', 'N', 'A,S', 'S,B'])
@@ -284,7 +293,10 @@ class Cons(ReadBase):
             for _ in range(3 if tier == 'quick' else 10):
                 vecs.append([rng.choice(CONS) for _ in range(rng.choice([2, 3, 5]))])
             rng.shuffle(vecs)
-            for v in vecs[:4 if tier == 'quick' else 12]:
+            vecs = vecs[:4 if tier == 'quick' else 12]
+            # leave the first k entries alone (or skip them), then read: state deferred over several entries
+            vecs += [[rng.choice(['N', 'S'])] * k + ['A'] for k in ((1, 3, 5) if tier == 'quick' else (1, 2, 3, 4, 5, 7, 9))]
+            for v in vecs:
                 ops.append(f'run blk={blk} src={src} cons={",".join(v)} trunc=- fault=-')
             yield Case(f'cons:{name}', ops)
         # every writable format under a seekable and under a purely sequential source, then random combinations
